@@ -264,6 +264,12 @@ func (fx *FX) callContract(st *State, v ssa.Value, callee *ssa.Function, fc *Fun
 	fx.labelCall(v, callee, c)
 	g := and(st.PC, guard)
 	if fc == nil {
+		if fx.inlinable(callee) {
+			if r, ok := fx.inlineCall(st, callee, args, envRef, guard, pos); ok {
+				return r
+			}
+		}
+		fx.note("callee %s has no contract and cannot be inlined: result unconstrained", callee.Name())
 		fx.markResultAllocated(st, rt, res)
 		return res
 	}
@@ -581,6 +587,23 @@ func (fx *FX) assumeClosureContract(st *State, fv VFunc, ft types.Type, g T, pos
 	fn := fx.u.fnList[id-1]
 	fc := fx.u.contractOf(fn)
 	if fc == nil {
+		if fx.inlinable(fn) {
+			// the closure body is executed symbolically here; apply(closure) is its result
+			s2 := st.clone()
+			if r, ok := fx.inlineCall(s2, fn, nil, fv.Env, g, pos); ok {
+				sig := ft.Underlying().(*types.Signature)
+				var rt types.Type = sig.Results()
+				if sig.Results().Len() == 1 {
+					rt = sig.Results().At(0).Type()
+				}
+				ap := fx.u.pureApply(fx, fv, rt)
+				fa, fr := flatten(ap), flatten(r)
+				for i := range fa {
+					fx.assume(and(g, s2.PC), eq(fa[i], fr[i]))
+				}
+				return
+			}
+		}
 		fx.note("closure %s has no contract: nothing known about its result", fn.Name())
 		return
 	}
@@ -621,4 +644,178 @@ func (fx *FX) assumeClosureContract(st *State, fv VFunc, ft types.Type, g T, pos
 	for _, e := range fc.Ensures {
 		fx.assume(g, fx.hypBool(env, e.E))
 	}
+}
+
+// ---------------------------------------------------------------------------
+// inlining of in-unit callees that have no contract
+
+// inlinable: loop-free, non-recursive (bounded depth), body available.
+func (fx *FX) inlinable(callee *ssa.Function) bool {
+	if callee == nil || len(callee.Blocks) == 0 || fx.inlineDepth >= 3 {
+		return false
+	}
+	if len(callee.Blocks) > 40 {
+		return false
+	}
+	for _, b := range callee.Blocks {
+		for _, s := range b.Succs {
+			if s.Dominates(b) {
+				return false // loop
+			}
+		}
+		for _, in := range b.Instrs {
+			switch in.(type) {
+			case *ssa.Go, *ssa.Select, *ssa.Send:
+				return false
+			}
+		}
+	}
+	for f := fx.fn; f != nil; f = nil {
+		if f == callee {
+			return false
+		}
+	}
+	for _, f := range fx.inlineStack {
+		if f == callee {
+			return false
+		}
+	}
+	return true
+}
+
+// inlineCall executes the body of callee symbolically in the caller's context (the verified text is
+// the callee's own SSA). Its safety obligations are generated at this call site, relative to the
+// caller's frame. Returns the result value and the merged exit state.
+func (fx *FX) inlineCall(st *State, callee *ssa.Function, args []Val, envRef T, guard T, pos token.Pos) (Val, bool) {
+	sub := &FX{u: fx.u, fn: callee, fc: nil, name: fx.name, usedModels: fx.usedModels, mapOrigin: fx.mapOrigin, pureDecl: fx.pureDecl}
+	sub.inlineDepth = fx.inlineDepth + 1
+	sub.inlineStack = append(append([]*ssa.Function{}, fx.inlineStack...), fx.fn)
+	sub.initMaps()
+	sub.vals = map[ssa.Value]Val{}
+	sub.out = map[*ssa.BasicBlock]*State{}
+	sub.kindN = fx.kindN
+	sub.names = map[string]ssa.Value{}
+	sub.loops = map[*ssa.BasicBlock]*loopInfo{}
+	sub.inLoop = map[*ssa.BasicBlock]*loopInfo{}
+	sub.defers = map[*ssa.BasicBlock][]deferred{}
+	sub.bnd = fx.bnd
+	sub.tz = fx.tz
+	sub.knownFresh = fx.knownFresh
+	sub.nonNil = fx.nonNil
+	sub.privCache = map[*ssa.Alloc]bool{}
+	sub.privByRef = fx.privByRef
+	sub.phiN = map[string]int{}
+	sub.bound = map[ssa.Value]bool{}
+	sub.assertsSeen = map[string]bool{}
+	sub.entryRefs = fx.entryRefs
+	sub.strLits = fx.strLits
+	sub.entry = fx.entry
+	sub.modRefs = fx.modRefs
+	sub.n = fx.n
+	sub.stampN = fx.stampN
+	sub.rngPos, sub.rngPos0 = fx.rngPos, fx.rngPos0
+	sub.domain, sub.domainAll = tTrue, tTrue
+	sub.labels = fx.labels
+	sub.inlinedIn = fx
+	sub.fnSplits = fx.fnSplits
+	sub.callerLoop = fx.inLoop[fx.curBlock]
+	if fx.callerLoop != nil && sub.callerLoop == nil {
+		sub.callerLoop = fx.callerLoop
+	}
+	base := len(fx.lines)
+	sub.lineBase = base + fx.lineBase
+	// parameters
+	for i, p := range callee.Params {
+		if i < len(args) {
+			sub.vals[p] = args[i]
+		}
+	}
+	off := int64(0)
+	for _, fv := range callee.FreeVars {
+		cp, _ := unflatten(fv.Type(), fx.loadLeaves(st, envRef, num(off), fv.Type()))
+		off += sizeOf(fv.Type())
+		sub.vals[fv] = cp
+		if p, ok := cp.(VPtr); ok {
+			sub.nonNil[p.Ref.S] = true
+		}
+	}
+	entry := st.clone()
+	entry.PC = and(st.PC, guard)
+	order := sub.blockOrder()
+	sub.inlineRets = nil
+	sub.computeLabelsInline(fx)
+	for _, b := range order {
+		sub.execBlock(b, entry)
+	}
+	// move the generated script and obligations into the caller
+	for i, l := range sub.lines {
+		fx.lines = append(fx.lines, l)
+		m := sub.lineMeta[i]
+		m.block = fx.curBlock
+		fx.lineMeta = append(fx.lineMeta, m)
+	}
+	for _, o := range sub.obls {
+		o.Prefix += base
+		o.fx = fx
+		o.Block = fx.curBlock
+		o.Name = strings.Replace(o.Name, "/", "/inl."+callee.Name()+":", 1)
+		fx.obls = append(fx.obls, o)
+	}
+	fx.n, fx.stampN = sub.n, sub.stampN
+	fx.rngPos = sub.rngPos
+	fx.abstractions = append(fx.abstractions, sub.abstractions...)
+	fx.warnings = append(fx.warnings, sub.warnings...)
+	if len(sub.inlineRets) == 0 {
+		// no normal return (e.g. always panics): the path ends here
+		st.PC = and(st.PC, not(guard))
+		rt := callee.Signature.Results()
+		if rt.Len() == 0 {
+			return VUnit{}, true
+		}
+		return fx.havoc("noreturn", resultTypeOf(callee), tTrue), true
+	}
+	// merge the returns
+	var conds []T
+	var sts []*State
+	for _, r := range sub.inlineRets {
+		conds = append(conds, r.st.PC)
+		sts = append(sts, r.st)
+	}
+	merged := fx.mergeStates(conds, sts)
+	var res Val = VUnit{}
+	if rt := resultTypeOf(callee); rt != nil {
+		var v Val
+		for k := len(sub.inlineRets) - 1; k >= 0; k-- {
+			if v == nil {
+				v = sub.inlineRets[k].val
+			} else {
+				v = iteVal(rt, conds[k], sub.inlineRets[k].val, v)
+			}
+		}
+		res = fx.defVal("inl_"+callee.Name(), rt, v)
+	}
+	// back in the caller: the state is the callee's exit state where the call was made, else unchanged
+	fx.mergeInto(st, merged.PC, merged)
+	st.PC = fx.def("pc", or(and(st.PC, not(guard)), merged.PC))
+	for a, v := range st.Priv {
+		_ = v
+		delete(st.Priv, a) // conservatively forget private-local versions across the inlined body
+	}
+	return res, true
+}
+
+func resultTypeOf(fn *ssa.Function) types.Type {
+	r := fn.Signature.Results()
+	switch r.Len() {
+	case 0:
+		return nil
+	case 1:
+		return r.At(0).Type()
+	}
+	return r
+}
+
+type inlineRet struct {
+	st  *State
+	val Val
 }
